@@ -397,3 +397,53 @@ def digest_form(ctx):
         if not ok and any(isinstance(n, ast.Name) and n.id == 'txid' for n in ast.walk(v)):
             ctx.violate(q, 'the digest argument is stored as `%s` without conversion to hexadecimal text' % norm(v), a,
                         'a digest string that is not plain hex ("0x..", a typo) reaches the C verifier, which reads it as 0: a signature forged for digest 0 (no private key needed) is accepted')
+
+
+@PROP.obligation('C13.der-whole-input', canaries=[
+    mut.replace_expr('encoding', 'convert_der_sig', 'bytes(signature)', 'bytes(signature)[:signature[1] + 2]', 'decoder is shown only the announced length of the sequence'),
+    mut.replace_expr('encoding', 'convert_der_sig', "junk != b''", 'False', 'bytes after the sequence accepted by the pure-python decoder'),
+])
+def der_whole_input(ctx):
+    """encoding.convert_der_sig - the DER decoder behind Signature.parse_bytes, keys.verify and OP_CHECKSIG - hands the decoder the WHOLE
+    byte string it was given, on the fastecdsa path and on the pure-python path, and the latter raises when bytes follow the sequence.
+    A decoder that is shown a prefix never sees surplus bytes: <DER(r,s)> junk <hashtype> would verify."""
+    q = 'encoding:convert_der_sig'
+    fn = ctx.repo.func(q)
+    SIG = ('var', 'signature')
+    n = 0
+    for fast in (True, False):
+        seen = []
+
+        def obs(name, base, args, kwargs, st, node):
+            if name in ('decode_signature', 'remove_sequence'):
+                seen.append((name, [term(a) for a in args], node))
+
+        def decide(t, fast=fast):
+            if t == ('global', 'USE_FASTECDSA'):
+                return fast
+            if t == SIG or t == ('len', SIG):
+                return True
+            return None
+        it = Interp(ctx.repo, 'encoding', decide=decide)
+        it.consts = dict(it.consts)
+        it.consts.pop('USE_FASTECDSA', None)
+        it.obs_call = obs
+        try:
+            exits = it.run_function(fn, {'signature': S(SIG, 'bytes'), 'as_hex': True})
+        except AnalysisError as e:
+            ctx.undecided('convert_der_sig (%s path) not evaluable: %s' % ('fastecdsa' if fast else 'pure python', str(e)[:100]))
+        want = 'decode_signature' if fast else 'remove_sequence'
+        calls = [c for c in seen if c[0] == want]
+        if len(calls) != 1:
+            ctx.undecided('convert_der_sig (%s path): %d calls of %s' % ('fastecdsa' if fast else 'pure python', len(calls), want))
+        arg = calls[0][1][0] if calls[0][1] else None
+        n += 1
+        ctx.saw('%s path: %s(%s)' % ('fastecdsa' if fast else 'pure python', want, show(arg)[:60]))
+        ctx.require(arg in (SIG, ('bytes', SIG)), q, 'on the %s path the DER decoder is given `%s`, not the whole input' % ('fastecdsa' if fast else 'pure-python', show(arg)[:80]), calls[0][2],
+                    'bytes between the end of the ASN.1 sequence and the hash-type byte are ignored: a malformed encoding of a valid (r, s) is accepted by the verifier')
+        if not fast:
+            junk_raise = [e for e in exits if e.kind == 'raise' and any('remove_sequence' in show(t) for t, _ in e.pc)]
+            ok_ret = [e for e in exits if e.kind == 'return' and not any('remove_sequence' in show(t) for t, _ in e.pc)]
+            ctx.require(bool(junk_raise) and not ok_ret, q, 'on the pure-python path no raise depends on the bytes that follow the sequence', fn,
+                        'bytes after the ASN.1 sequence are ignored')
+    ctx.floor(n, 2, 'decoder paths')
